@@ -35,6 +35,10 @@ Pool == <<
   D("VDD",   "pat", <<Lit(118), Set(<<Cls("d")>>), Set(<<Cls("d")>>)>>, ""),           \* /v\d\d/   no operator at all
   D("ESC",   "pat", <<Lit(43), Lit(43)>>, ""),                                          \* /\+\+/   same language as the literal "++"
   D("XAB",   "pat", <<Lit(1), Lit(65)>>, ""),                                           \* /\x01A/
+  D("SLS",   "pat", <<Lit(59), Set(<<LowR>>), Lit(59)>>, ""),                   \* /;[a-z];/   same text as the literal ";x;"
+  D("SXS",   "inl", Lits(<<59, 120, 59>>), ""),                                 \* ";x;"
+  D("QAQ",   "str", Lits(<<34, 97, 34>>), ""),                                  \* "\"a\""   two escapes in one literal
+  D("SLASHQ","str", Lits(<<47, 34, 92>>), ""),                                 \* "/\"\\"  three characters / " \
   D("AB",    "str", Lits(<<97, 98>>), ""),                                      \* "ab"
   D("ABC1",  "pat", <<AltF(<< <<Lit(97), Lit(98)>>, <<Lit(99)>> >>)>>, ""),       \* /(ab|c)/   with ABD1 and "ab": one literal, two patterns,
   D("ABD1",  "pat", <<AltF(<< <<Lit(97), Lit(98)>>, <<Lit(100)>> >>)>>, ""),      \* /(ab|d)/   nothing else in common
@@ -45,7 +49,6 @@ Pool == <<
   D("ABC",   "pat", <<Star(<<AltF(<< <<Lit(97)>>, <<Lit(98)>> >>)>>), Lit(99)>>, ""),  \* /(a|b)*c/
   D("MINUS", "str", Lits(<<45>>), ""),                                         \* "-"
   D("WS",    "pre", <<Set(<<Ch(9), Ch(10), Ch(13), Ch(32)>>)>>, "$WS"),
-  D("SLASHQ","str", Lits(<<47, 34, 92>>), ""),                                 \* "/\"\\"  three characters / " \
   D("HEX",   "pat", <<Lit(48), Lit(120), Plus(<<Set(<<Cls("xdigit")>>)>>)>>, "")   \* /0x[[:xdigit:]]+/
 >>
 
